@@ -1022,44 +1022,78 @@ func adaptiveForger(t *core.Tape, info *core.RunInfo, suite proof.Suite, sn, pro
 		V[i] = suite.Point().Mul(vs[i], nil)
 	}
 	// the last statement point is somebody else's: the forger does not know its logarithm
-	pval[fmt.Sprintf("P%d", k-1)] = suite.Point().Mul(rscalar(suite, t, "fault.val"), nil)
+	// (control runs: it does, answers honestly and leaves the proof alone - and must be accepted)
+	control := t.Bool("fault.adaptive.ctl", 200)
+	if !control {
+		pval[fmt.Sprintf("P%d", k-1)] = suite.Point().Mul(rscalar(suite, t, "fault.val"), nil)
+	}
 	var pred proof.Predicate = reps[0]
 	if k > 1 {
 		pred = proof.And(reps...)
 	}
-	challenge := func() kyber.Scalar {
-		commits.Reset()
-		for i := 0; i < k; i++ {
-			_ = suite.Write(&commits, V[i])
-		}
-		x := suite.XOF([]byte(proto))
-		x.Reseed()
-		_, _ = x.Write(commits.Bytes())
-		c := suite.Scalar()
-		_ = suite.Read(x, c)
-		return c
-	}
-	c := challenge() // with a placeholder as last commitment
+	// The forger drives the library's own prover context (a proof.Prover is any function of a
+	// ProverContext): it puts k commitments, the last one a placeholder, takes the challenge that the
+	// context hands out, answers, and afterwards writes c*Y + r*B over the placeholder in the proof.
+	var c kyber.Scalar
 	r := rscalar(suite, t, "fault.val")
-	Y := pval[fmt.Sprintf("P%d", k-1)]
-	V[k-1] = suite.Point().Add(suite.Point().Mul(c, Y), suite.Point().Mul(r, nil)) // c*Y + r*B: fits c
-	var pf bytes.Buffer
-	for i := 0; i < k; i++ {
-		_ = suite.Write(&pf, V[i])
-	}
-	for i := 0; i < k; i++ {
-		ri := suite.Scalar().Sub(vs[i], suite.Scalar().Mul(c, xs[i]))
-		if i == k-1 {
-			ri = r
+	forger := proof.Prover(func(ctx proof.ProverContext) error {
+		for i := 0; i < k; i++ {
+			if err := ctx.Put(V[i]); err != nil {
+				return err
+			}
 		}
-		_ = suite.Write(&pf, ri)
+		c = suite.Scalar()
+		if err := ctx.PubRand(c); err != nil {
+			return err
+		}
+		for i := 0; i < k; i++ {
+			ri := suite.Scalar().Sub(vs[i], suite.Scalar().Mul(c, xs[i]))
+			if i == k-1 && !control {
+				ri = r
+			}
+			if err := ctx.Put(ri); err != nil {
+				return err
+			}
+		}
+		return nil
+	})
+	var pfb []byte
+	var perr error
+	if pn := core.Guard(func() { pfb, perr = proof.HashProve(suite, proto, forger) }); pn != nil || perr != nil {
+		info.Probe("adaptive-forger-prover-context-failed")
+		return nil
 	}
+	plen := suite.PointLen()
+	if len(pfb) != k*(plen+suite.ScalarLen()) {
+		info.Probe("adaptive-forger-unexpected-proof-length")
+		return nil
+	}
+	Y := pval[fmt.Sprintf("P%d", k-1)]
+	V[k-1] = suite.Point().Add(suite.Point().Mul(c, Y), suite.Point().Mul(r, nil)) // fits c, if c stays
+	var pf bytes.Buffer
+	pf.Write(pfb)
+	if !control {
+		vb, _ := V[k-1].MarshalBinary()
+		copy(pf.Bytes()[(k-1)*plen:], vb)
+	}
+	_ = commits
 	info.Config["mode"], info.Config["suite"], info.Config["pred"] = "hash", sn, fmt.Sprintf("and-of-%d-reps", k)
-	info.ByzFired("commitment-chosen-after-the-challenge")
-	info.SigAdd("adaptive:%d:%s", k, sn)
+	if control {
+		info.Fault("custom-prover-following-the-protocol")
+	} else {
+		info.ByzFired("commitment-chosen-after-the-challenge")
+	}
+	info.SigAdd("adaptive:%d:%s:%v", k, sn, control)
 	var verr error
 	if pn := core.Guard(func() { verr = proof.HashVerify(suite, proto, pred.Verifier(suite, pval), pf.Bytes()) }); pn != nil {
 		return viol("totality", "hash/verify-panic/"+sn+"/adaptive-forger", "HashVerify panicked: %v | %s", pn, core.LastStack())
+	}
+	if control {
+		if verr != nil {
+			return viol("completeness", "hash/rejected/"+sn+"/custom-prover-following-the-protocol", "a prover function that follows the protocol for And of %d Reps through the library's prover context is refused: %v", k, verr)
+		}
+		info.Events++
+		return nil
 	}
 	if verr == nil {
 		return viol("soundness", "hash/accepted/"+sn+"/commitment-chosen-after-the-challenge", "a proof of And of %d Reps whose last commitment was fixed after the challenge (prover without the last secret) is accepted", k)
